@@ -10,7 +10,7 @@ SCR=$(mktemp -d /tmp/cross.XXXXXX)
 export CARGO_NET_OFFLINE=true
 git -C /repo worktree add -q --detach "$SCR/repo" HEAD
 mkdir -p "$SCR/sim"
-rsync -a --exclude target /verif/sim/ "$SCR/sim/"
+rsync -a --exclude target "${SIMSRC:-/verif/sim}/" "$SCR/sim/"
 sed -i "s|path = \"/repo\"|path = \"$SCR/repo\"|" "$SCR/sim/Cargo.toml"
 trap 'git -C /repo worktree remove --force "$SCR/repo" 2>/dev/null; rm -rf "$SCR"' EXIT
 props="${PROPS:-C01 C02 C03 C04 C05 C06 C10 C13 C14 C15 C17 C18}"
@@ -23,7 +23,7 @@ for patch in "$@"; do
   if ! (cd "$SCR/sim" && cargo build --offline --profile simdev >"$SCR/build.log" 2>&1); then echo -e "$name\t-\terror\tbuild" >> "$out"; continue; fi
   plist="$props"; [ "${TARGET_ONLY:-0}" = 1 ] && plist=$(echo "$patch" | grep -oE "C[0-9]{2}" | head -1)
   for prop in $plist; do
-    "$SCR/sim/target/simdev/dtr-sim" check $prop --tier quick --replay-dir "$SCR/rp" --known /dev/null >"$SCR/run.log" 2>&1
+    "$SCR/sim/target/simdev/dtr-sim" check $prop --tier ${TIER:-quick} ${RUNS:+--runs $RUNS} --replay-dir "$SCR/rp" --known /dev/null >"$SCR/run.log" 2>&1
     code=$?
     oracle=$(sed -n 's/^  oracle \([A-Za-z0-9_.]*\):.*/\1/p' "$SCR/run.log" | head -1)
     case $code in
